@@ -97,7 +97,7 @@ class Analysis(object):
                         and const_int(e.kids[other]) is not None:
                     out.add(a.n)
 
-    def const_call(self, call):
+    def const_call(self, call, st=None):
         """Hook: constant integer a call always returns (summary), or None."""
         return None
 
@@ -249,18 +249,17 @@ class Analysis(object):
                 return st if truth == want else None
             if not want:
                 return sset(st, "f:" + e.n, 0)
-            if self.locals.get(e.n, "").strip().endswith("*"):
-                return sset(st, "f:" + e.n, "NN")
-            return st
+            # known non-NULL pointer / non-zero integer
+            return sset(st, "f:" + e.n, "NN")
         if e.k == "CallExpr":
-            cv = self.const_call(e)
+            cv = self.const_call(e, st)
             if cv is not None:
                 return st if bool(cv) == want else None
             return st
         if e.k == "BinaryOperator" and e.v in ("==", "!=", "<", ">", "<=", ">="):
             a, b = strip(e.kids[0]), strip(e.kids[1])
             if a is not None and a.k == "CallExpr" and const_int(b) is not None:
-                cv = self.const_call(a)
+                cv = self.const_call(a, st)
                 if cv is not None:
                     cb = const_int(b)
                     truth = {"==": cv == cb, "!=": cv != cb, "<": cv < cb,
@@ -284,6 +283,8 @@ class Analysis(object):
                         if cb == 0 and op in ("==", "!="):
                             truth = (op == "!=")
                             return st if truth == want else None
+                        if (op == "==" and want) or (op == "!=" and not want):
+                            return sset(st, "f:" + a.n, cb)
                         return st
                     truth = {"==": cur == cb, "!=": cur != cb, "<": cur < cb,
                              ">": cur > cb, "<=": cur <= cb, ">=": cur >= cb}[op]
